@@ -42,7 +42,7 @@ func init() {
 			}
 		}})
 
-	register(&Rule{ID: "C04.price", Props: []string{"C04"}, Floor: 8,
+	register(&Rule{ID: "C04.price", Props: []string{"C04", "C15"}, Floor: 8,
 		Doc: "share prices are evaluated on the asset and validator before any ledger write of the operation",
 		Run: func(e *Engine, r *RuleRun) {
 			priceFns := []string{"types.GetValidatorShares", "types.GetDelegationTokensWithShares", "keeper.Keeper.ValidateDelegatedAmount", "keeper.Keeper.upsertDelegationWithNewTokens"}
@@ -102,36 +102,13 @@ func init() {
 					return false
 				}
 				n := 0
-				for _, ret := range Returns(fn) {
-					t := fa.Term(ret.Results[0])
-					if !t.IsCall("math.LegacyNewDecFromInt") {
+				for _, rc := range fa.ReturnCases(0) {
+					if !rc.T.IsCall("math.LegacyNewDecFromInt") {
 						continue
 					}
 					n++
-					b := ret.Block()
-					ok := fa.HasGuard(ret, isZeroShares)
-					if !ok && len(b.Preds) > 0 {
-						ok = true
-						for _, p := range b.Preds {
-							edgeOK := false
-							for i, s := range p.Succs {
-								if s == b {
-									if g, has := fa.EdgeFact(p, i); has && isZeroShares(g) {
-										edgeOK = true
-									}
-								}
-							}
-							for _, g := range fa.GuardsOfBlock(p) {
-								if isZeroShares(g) {
-									edgeOK = true
-								}
-							}
-							if !edgeOK {
-								ok = false
-							}
-						}
-					}
-					r.Check(ok, k, "bootstrap price only for an empty pool", "returns one share per token only when the pool's total shares are zero", "new shares are priced one per token on a path where the pool may already hold shares: the newcomer's stake is split with the holders of the existing shares (dilution), or the newcomer takes part of theirs", r.P(ret))
+					ok := rc.HasCaseGuard(isZeroShares)
+					r.Check(ok, k, "bootstrap price only for an empty pool", "returns one share per token only when the pool's total shares are zero", "new shares are priced one per token on a path where the pool may already hold shares: the newcomer's stake is split with the holders of the existing shares (dilution), or the newcomer takes part of theirs", r.P(rc.Ret))
 				}
 				r.Check(n == 1, k, "one bootstrap return", "found", fmt.Sprintf("%d bootstrap returns", n))
 			}
@@ -193,7 +170,7 @@ func init() {
 			}
 		}})
 
-	register(&Rule{ID: "C06.scale", Props: []string{"C06", "C03", "C08", "C07"}, Floor: 6,
+	register(&Rule{ID: "C06.scale", Props: []string{"C06", "C03", "C08", "C07", "C02"}, Floor: 6,
 		Doc: "SlashValidator: each share and the asset's share total are reduced by the same share*fraction; results persisted",
 		Run: func(e *Engine, r *RuleRun) {
 			fn := r.Need("keeper.Keeper.SlashValidator")
